@@ -518,7 +518,46 @@ func c05FailParks(c *Ctx, m *Module) {
 			}
 		}
 	}
-	r.Check("C05.fail-parks", "openMapped/closes what it opened on error", m.Pos(om.Pos()), okDefer, "a deferred function must close the partially opened mapping when err != nil")
+	if !okDefer {
+		// … or every exit that reports an error after the file was opened closes it itself
+		okDefer = true
+		nErr := 0
+		var opened ssa.Instruction
+		for _, cs := range callsIn(om, "os.OpenFile") {
+			opened = cs
+		}
+		for _, ex := range exitPaths(om) {
+			if opened == nil || !ex.passes(opened) || len(ex.vals) < 2 || isNilConst(refine(ex.vals[1], ex.facts)) {
+				continue
+			}
+			// the exit taken when OpenFile itself failed has nothing to close
+			openFailed := false
+			for _, f := range ex.facts {
+				if e, ok := f.Cond.(*ssa.BinOp); ok && (e.Op == token.NEQ || e.Op == token.EQL) {
+					for _, o := range []ssa.Value{e.X, e.Y} {
+						if x, ok := o.(*ssa.Extract); ok && x.Tuple == opened.(ssa.Value) && x.Index == 1 && !assertsEq(e, f.Pol) {
+							openFailed = true
+						}
+					}
+				}
+			}
+			if openFailed {
+				continue
+			}
+			nErr++
+			closed := false
+			for _, cs := range callsIn(om, "(*internal/counter.mappedFile).close") {
+				if ex.passes(cs) {
+					closed = true
+				}
+			}
+			if !closed {
+				okDefer = false
+			}
+		}
+		okDefer = okDefer && nErr > 0
+	}
+	r.Check("C05.fail-parks", "openMapped/closes what it opened on error", m.Pos(om.Pos()), okDefer, "the partially opened mapping must be closed when an error is reported: by a deferred function under err != nil, or on every error exit")
 	// Add's nil-pointer branch only touches extra (no dereference of c.ptr.count)
 	add := m.Func("internal/counter", "Counter.Add")
 	for _, cs := range callsIn(add, "(*internal/counter.Counter).add") {
@@ -735,9 +774,22 @@ func c05HdrLen(c *Ctx, m *Module) {
 			if strings.HasPrefix(d, "conv<uint32>(builtin:len(internal/counter.mappedHeader(") && strings.HasSuffix(d, ")#0))") {
 				ok2 = okHdr
 			} else {
-				p := newProver()
+				p := newProver().at(st)
 				v := p.norm(st.Val)
-				ok2, _ = p.prove(linConst(hdrLenBound).add(v, -1), p.factsLinAt(st))
+				facts := p.factsLinAt(st)
+				if okHdr {
+					// summary of mappedHeader, proved above: the header it returns is at most a page long
+					for _, cs := range callsIn(fn, "internal/counter.mappedHeader") {
+						if cl, isCall := cs.(*ssa.Call); isCall {
+							for _, u := range referrers(cl) {
+								if e, isE := u.(*ssa.Extract); isE && e.Index == 0 {
+									facts = append(facts, linConst(hdrLenBound).add(p.lenOf(e), -1))
+								}
+							}
+						}
+					}
+				}
+				ok2, _ = p.prove(linConst(hdrLenBound).add(v, -1), facts)
 			}
 			r.Check("C05.hdrlen-bounded", fname(fn)+"/hdrLen ≤ pageSize", m.Pos(st.Pos()), ok2, "value stored: "+shortDesc(d))
 		}
